@@ -114,7 +114,7 @@ def gen(repo):
     pins = _pins({
         'return obj._map(fnc)': 'MColMap',
         'dm = obj[:]': 'MCopy',
-        'for row in dm:\n    d = {col: val for col, val in row}\n    d.update(fnc(**d))\n'
+        'for row, source_row in zip(dm, obj):\n    d = {col: val for col, val in source_row}\n    d.update(fnc(**d))\n'
         '    for col, val in d.items():\n        row[col] = val': 'MRowLoop',
         'return dm': 'MReturn',
     })
